@@ -180,7 +180,13 @@ impl<Body> AmendedRequest<Body> {
     }
 
     pub fn new_uri_from_location(&self, location: &str) -> Result<Uri, Error> {
-        // The request uri is not absolute, or the request was already taken to follow this redirect.
+        // The request was already taken to follow this redirect (the uri override of a
+        // redirected request would still resolve).
+        if self.request.body().is_none() {
+            return Err(Error::BadLocationHeader(location.to_string()));
+        }
+
+        // The request uri is not absolute.
         let base = Url::parse(&self.uri().to_string())
             .map_err(|_| Error::BadLocationHeader(location.to_string()))?;
 
